@@ -79,6 +79,10 @@ class VClock:
     def sleep(self, s: float) -> None:
         # the library's default sleeper: record and advance exactly
         self.default_sleeps.append(s)
+        hook = getattr(self, "on_default_sleep", None)
+        if hook is not None:
+            hook(s)               # the environment logs the call like one of its own sleeper
+            return
         self.ticks += max(0, int(round(s / TICK)))
 
 
